@@ -57,3 +57,6 @@ Definition case_line (u : string * ty) : string :=
   (if sup_root body then model else "?") ++ tab ++ model.
 
 Definition cases (tier : Z) (seed : Z) : list string := map case_line (candidate_units tier).
+
+(* the units the emitter streams link into their runner *)
+Definition emit_cases (tier : Z) (seed : Z) : list string := map case_line (emit_units tier).
